@@ -29,6 +29,7 @@ SCRIPTS = {
     'd': dict(events=[['creq', 3, 'wl_callback'], ['use', 3], ['del', 3], ['creq', 3, 'wl_callback'], ['use', 3]], role='unknown'),
     'e': dict(events=[['get_registry'], ['bind', 5, 'zz_f'], ['cev', S, 'zz_a'], ['cev', S, 'wl_callback'], ['ment', S]], role='client'),
     'q': dict(events=[['get_registry'], ['quote', '12'], ['creq', 3, 'wl_callback'], ['quote', '1'], ['del', 3]], role='client'),
+    'o': dict(events=[['get_registry'], ['orphan'], ['creq', 3, 'wl_callback'], ['orphan'], ['use', 3]], role='client'),
     'b3': dict(events=[['get_registry'], ['creq', 3, 'wl_callback'], ['del', 3]], role='client'),
     'd3': dict(events=[['creq', 3, 'wl_callback'], ['del', 3], ['creq', 3, 'wl_callback']], role='unknown'),
     'f3': dict(events=[['get_registry'], ['bind', 3, 'zz_b'], ['use', 3]], role='server', server_side=True),
@@ -38,7 +39,7 @@ SCRIPTS = {
                role='server', server_side=True),
 }
 
-TUPLES_QUICK = [('a', 'b'), ('a', 'c'), ('b', 'd'), ('e', 'a'), ('b3', 'd3', 'f3'), ('b3', 'b3', 'b3'), ('q', 'b')]
+TUPLES_QUICK = [('a', 'b'), ('a', 'c'), ('b', 'd'), ('e', 'a'), ('b3', 'd3', 'f3'), ('b3', 'b3', 'b3'), ('q', 'b'), ('o', 'b3')]
 TUPLES_THOROUGH = TUPLES_QUICK + [('c', 'd'), ('e', 'c'), ('b', 'b'), ('d', 'd'), ('a4', 'c4', 'g2'), ('c4', 'a4', 'b3'),
                                   ('a', 'b', 'd3'), ('c', 'e', 'b3'), ('d', 'b', 'g2'), ('a4', 'c4', 'a4'),
                                   ('b3', 'd3', 'f3', 'g2')]
@@ -115,13 +116,13 @@ def eval_ilv(case):
             announced.add(ci)
             if got_notice != want_notice:
                 V.append(Violation('notice.new', case, dict(step, expected=want_notice, observed=got_notice)))
-            if err or logs:
+            if (err or logs) and not exp.get('orphan'):
                 V.append(Violation('log.noise', case, dict(step, err=err, log=logs)))
             if len(recs) != 1:
                 V.append(Violation('line.count', case, dict(step, observed=out)))
                 continue
             r = recs[0]
-            if r['conn'] != names[ci]:
+            if r['conn'] != names[ci] and not exp.get('orphan'):
                 V.append(Violation('attribution.name', case, dict(step, expected=names[ci], observed=r['conn'], shown=r['text'])))
             for what, e, o in ot.check_line(r, exp):
                 V.append(Violation('attribution.' + what.split(' ')[0].rstrip('0123456789'), case,
